@@ -67,6 +67,10 @@ CHECKS = {
    technique="exhaustive enumeration of fault plans (worker kind x fault point x panic/return x time x worker count) against run() in child processes, injected through cfg-gated probes",
    text="57 (quick) / ~150 (thorough) fault plans: for UDP (mio and io_uring), HTTP and WS, every worker kind (socket, swarm, cleaning, statistics, signals) is made to panic - and, where returning ends the worker function, to return - at start-up, at its first loop iteration and after requests have been served, with 1 and 2 workers of the kind; plus a socket that cannot be bound (no hook). Each plan runs the real run() in a child process with traffic / SIGUSR1 as needed to reach the point; run() must return Err within 10 s of the probe firing. A plan whose point is never reached is a machinery failure, not a pass.",
    note="Hanging workers and the prometheus worker are not covered; time is measured inside the child from the probe firing."),
+ "C16": dict(level="model_checking", engine="netmc", ref="§3 C16",
+   technique="explicit-state BFS of a reference model + conformance replay of every explored transition against running trackers over all worker-count configurations and placements",
+   text="A reference model (one tracker, 2-3 connections, 2-3 torrents; announce / scrape shapes / malformed / oversized / close) is explored breadth-first with deduplication; every transition of the explored graph (1.6k quick, more at depth 4) is replayed - BFS-tree path to its source, then the transition, in a fresh info-hash namespace - against aquatic_http::run in child processes for socket_workers x swarm_workers configurations (quick 4, thorough all 18 incl. keep-alive off), connections placed on chosen socket workers (hook H7) and torrents on chosen swarm workers; short paths under every placement; a max_scrape_torrents=2 family; every byte-offset split of one announce and one scrape into TCP segments. Each reply must be exactly one HTTP/1.1 200 with exact Content-Length, canonical bencode equal to the single-tracker model.",
+   note="Executor scheduling inside the tracker is not controlled (requests of a path are serial; paths run concurrently in disjoint namespaces); malformed requests are judged by 120 ms of silence."),
 }
 
 NOT_YET = {}
